@@ -13,3 +13,126 @@ macro_rules! lib_only {
         }
     };
 }
+include!("/verif/kani/common.rs");
+
+fn substr_ascii(n: usize) {
+    let s = ascii_string(n);
+    let bytes: Vec<u8> = s.as_bytes().to_vec();
+    let from: usize = kani::any();
+    let to: usize = kani::any();
+    let args = vec![qr_str(s)];
+    let r = substring(&args, from, to);
+    match &r {
+        Ok(v) => {
+            kani::assert(v.len() == 1, "element-wise");
+            let in_range = n > 0 && from < to && to <= n;
+            match &v[0] {
+                Some(PathAwareValue::String((_, sub))) => {
+                    kani::assert(in_range, "strings for which the offsets are out of range are skipped");
+                    kani::assert(sub.len() == to - from, "substring(s,i,j) has j-i characters");
+                    let mut k = 0;
+                    while k < 3 {
+                        if k < sub.len() {
+                            kani::assert(sub.as_bytes()[k] == bytes[from + k], "substring(s,i,j) is characters i..j of s");
+                        }
+                        k += 1;
+                    }
+                }
+                Some(_) => kani::assert(false, "substring yields strings"),
+                None => kani::assert(!in_range, "in-range offsets yield a value"),
+            }
+        }
+        Err(_) => kani::assert(false, "substring does not raise errors"),
+    }
+    std::mem::forget(r);
+    std::mem::forget(args);
+    std::mem::forget(bytes);
+}
+
+/// C18: substring(s,i,j) is characters i..j of an ASCII string; out-of-range offsets are skipped (all i, j: usize)
+#[cfg_attr(kani, kani::proof)]
+#[cfg_attr(kani, kani::stub(alloc::fmt::format, fmt_stub))]
+#[cfg_attr(verif_replay, test)]
+fn k_substr_ascii() {
+    lib_only!();
+    substr_ascii(0);
+    substr_ascii(1);
+    substr_ascii(2);
+    substr_ascii(3);
+}
+
+/// C08: substring never panics, also when an offset falls inside a multi-byte character
+#[cfg_attr(kani, kani::proof)]
+#[cfg_attr(kani, kani::stub(alloc::fmt::format, fmt_stub))]
+#[cfg_attr(verif_replay, test)]
+fn k_substr_utf8_nopanic() {
+    lib_only!();
+    let c: char = kani::any();
+    kani::assume((c as u32) >= 0x80 && (c as u32) < 0x800); // two-byte characters
+    let mut s = String::with_capacity(4);
+    s.push(c);
+    s.push('a');
+    let from: usize = kani::any();
+    let to: usize = kani::any();
+    let args = vec![qr_str(s)];
+    let r = substring(&args, from, to);
+    kani::assert(r.is_ok(), "substring does not raise errors");
+    std::mem::forget(r);
+    std::mem::forget(args);
+}
+
+/// substring skips non-strings and unresolved values
+#[cfg_attr(kani, kani::proof)]
+#[cfg_attr(kani, kani::stub(alloc::fmt::format, fmt_stub))]
+#[cfg_attr(verif_replay, test)]
+fn k_substr_skips() {
+    lib_only!();
+    let args = vec![qr_int(kani::any()), qr_unresolved()];
+    let r = substring(&args, kani::any(), kani::any());
+    match &r {
+        Ok(v) => kani::assert(v.len() == 2 && v[0].is_none() && v[1].is_none(), "unsupported types and unresolved values are skipped"),
+        Err(_) => kani::assert(false, "skipping is not an error"),
+    }
+    std::mem::forget(r);
+    std::mem::forget(args);
+}
+
+/// join concatenates in query order with the delimiter strictly between elements; non-strings / unresolved => error
+#[cfg_attr(kani, kani::proof)]
+#[cfg_attr(kani, kani::stub(alloc::fmt::format, fmt_stub))]
+#[cfg_attr(verif_replay, test)]
+fn k_join() {
+    lib_only!();
+    let a = ascii_string(1);
+    let b = ascii_string(1);
+    let c = ascii_string(1);
+    let d = ascii_string(1);
+    let (a0, b0, c0, d0) = (a.as_bytes()[0], b.as_bytes()[0], c.as_bytes()[0], d.as_bytes()[0]);
+    let args = vec![qr_str(a), qr_str(b), qr_str(c)];
+    let r = join(&args, d.as_str());
+    match &r {
+        Ok(PathAwareValue::String((_, s))) => {
+            let x = s.as_bytes();
+            kani::assert(x.len() == 5 && x[0] == a0 && x[1] == d0 && x[2] == b0 && x[3] == d0 && x[4] == c0, "a d b d c");
+        }
+        _ => kani::assert(false, "join of strings yields a string"),
+    }
+    std::mem::forget(r);
+    std::mem::forget(args);
+    let empty: Vec<QueryResult> = Vec::new();
+    let r = join(&empty, d.as_str());
+    match &r {
+        Ok(PathAwareValue::String((_, s))) => kani::assert(s.is_empty(), "join of nothing is empty"),
+        _ => kani::assert(false, "join of nothing yields a string"),
+    }
+    std::mem::forget(r);
+    let bad = vec![qr_str(String::new()), qr_int(kani::any())];
+    let r = join(&bad, d.as_str());
+    kani::assert(r.is_err(), "joining a non-string is an error");
+    std::mem::forget(r);
+    let bad2 = vec![qr_unresolved()];
+    let r = join(&bad2, d.as_str());
+    kani::assert(r.is_err(), "joining an unresolved value is an error");
+    std::mem::forget(r);
+    std::mem::forget((bad, bad2, d));
+}
